@@ -116,7 +116,7 @@ def stale_param(repo, rep):
             rep.ok("R-SIB", site, "JD -> date block uses 365.25, 30.6001 (and their reciprocals), 4716, 4715 like get_date")
         else:
             rep.violation("R-SIB", site, "jd-block-constants", "JD -> date block lacks constant(s) %s used by get_date" % sorted(float(v) for v in need - nums))
-    rep.floor("JD -> date year selectors", n, 3)
+    rep.floor("JD -> date year selectors", n, 2)
 
 
 def century_ctrl(repo, rep):
@@ -198,7 +198,7 @@ def thresh_gap(repo, rep):
                                           % (norm_text(node)[:70], a, sorted(eqs[name])))
                         else:
                             rep.ok("R-THRESH-GAP", site, norm_text(node)[:70])
-    rep.floor("calendar splits examined", n, 2)
+    rep.floor("calendar splits examined", n, 1)
     # the Julian branch of moslem2gregorian delegates to doy2date, which must handle Julian years
     datetime_julian(repo, rep, ["Epoch.doy2date"])
 
